@@ -228,6 +228,29 @@ func (r *lbRun) checkRet(w *waiter) {
 	}
 	quiesce()
 	_, s := r.snap()
+	if cur && !s.Closed {
+		// a completed check of a current target rebuilds the list from the targets' liveness
+		alive := map[string]bool{}
+		n := 0
+		for _, t := range s.Targets {
+			if t.Alive {
+				alive[t.Address] = true
+				n++
+			}
+		}
+		same := n == len(s.List)
+		for _, a := range s.List {
+			same = same && alive[a]
+		}
+		if !same {
+			var al []string
+			for a := range alive {
+				al = append(al, a)
+			}
+			sort.Strings(al)
+			r.e.fail("C18-live-list-stale", fmt.Sprintf("after a detector check of %q returned, calls are scheduled over %v although the live targets are %v", addr, s.List, al), r.replay())
+		}
+	}
 	ops := []string{fmt.Sprintf("LCheckRet %d %s %s %s", r.idx(addr), coqBool(cur), coqBool(ok), r.nats(s.List))}
 	// woken waiters reschedule and make their calls
 	var saw []string
@@ -375,6 +398,12 @@ func (r *lbRun) route() {
 					}
 				}
 			case rpc.LeastTimeScheduling:
+				if probe {
+					// a probe restarts the probe clock: the next one is a whole Tick away
+					if _, sa := r.snap(); sa.ProbeAge > 2*time.Second {
+						r.e.fail("C17-probe-clock-not-restarted", fmt.Sprintf("least-time: right after a probe call the probe clock reads %v (Tick %v): the next probe can follow in less than one Tick", sa.ProbeAge.Round(time.Millisecond), r.c.Tick), r.replay())
+					}
+				}
 				if !probe {
 					min := int64(1) << 62
 					lat := map[string]int64{}
@@ -441,7 +470,9 @@ func runLB(work, prop string) {
 	scheds := []rpc.Scheduling{rpc.RoundRobinScheduling, rpc.RandomScheduling, rpc.LeastTimeScheduling}
 	for i := 0; i < n; i++ {
 		r := newLBRun(e, scheds[i%3])
-		if i%4 == 3 || (prop == "C17" && i%2 == 1) {
+		if i%10 == 6 || (prop == "C18" && i%5 == 1) {
+			r.scriptSwap()
+		} else if i%4 == 3 || (prop == "C17" && i%2 == 1) {
 			// many live targets: deep heap nodes, long rotations
 			r = newLBRunN(e, scheds[(i/2)%3], 6+e.Rng.Intn(4))
 			r.scriptFull()
@@ -455,6 +486,9 @@ func runLB(work, prop string) {
 		}
 	}
 	cases = append(cases, lbFunctionCases(e)...)
+	if prop == "C17" {
+		cases = append(cases, lbFallbackScenario(e)...)
+	}
 	if prop == "C18" {
 		lbTimeoutScenario(e)
 		cases = append(cases, lbFallbackScenario(e)...)
@@ -606,6 +640,82 @@ func (r *lbRun) scriptFull() {
 			r.trace = append(r.trace, "Flip "+a)
 		default:
 			r.update(all[:1+e.Rng.Intn(len(all))])
+		}
+	}
+	if !r.closed {
+		r.close()
+	}
+}
+
+// scriptSwap: one target recovers while another dies, and the recovered one's check completes first: the
+// live set changes from {b,c} to {a,c} without changing its size.
+func (r *lbRun) scriptSwap() {
+	a, b, c := r.addrs[0], r.addrs[1], r.addrs[2]
+	r.rt.health[a], r.rt.health[b], r.rt.health[c] = false, true, true
+	r.update([]string{a, b, c})
+	waitPings := func() {
+		deadline := time.Now().Add(400 * time.Millisecond)
+		for len(r.rt.pingGate.list()) == 0 && time.Now().Before(deadline) {
+			time.Sleep(2 * time.Millisecond)
+		}
+		r.settle()
+	}
+	release := func(addr string) bool {
+		for _, w := range r.rt.pingGate.list() {
+			if w.tag.(string) == addr {
+				r.checkRet(w)
+				return true
+			}
+		}
+		return false
+	}
+	for guard := 0; guard < 20; guard++ {
+		waitPings()
+		_, s := r.snap()
+		if len(s.List) == 2 {
+			break
+		}
+		ps := r.rt.pingGate.list()
+		if len(ps) == 0 {
+			continue
+		}
+		r.checkRet(ps[0])
+	}
+	// a comes back, b goes away
+	r.rt.mu.Lock()
+	r.rt.health[a], r.rt.health[b] = true, false
+	r.rt.mu.Unlock()
+	r.trace = append(r.trace, "Flip "+a, "Flip "+b)
+	for k := 0; k < 8; k++ { // until a call has hit b and failed
+		r.route()
+		_, s := r.snap()
+		dead := false
+		for _, t := range s.Targets {
+			if t.Address == b && !t.Alive {
+				dead = true
+			}
+		}
+		if dead {
+			break
+		}
+	}
+	// the recovered target's check completes first
+	for guard := 0; guard < 10; guard++ {
+		waitPings()
+		if release(a) {
+			break
+		}
+	}
+	for guard := 0; guard < 10 && release(b); guard++ {
+	}
+	nlog := len(r.rt.log)
+	for k := 0; k < 6; k++ {
+		r.route()
+	}
+	for _, x := range r.logSince(nlog) {
+		if x == b {
+			r.e.fail("C18-dead-target-keeps-traffic", fmt.Sprintf("calls are still sent to %q after it was found dead and %q had taken its place among the live targets", b, a), r.replay())
+			break
 		}
 	}
 	if !r.closed {
